@@ -785,6 +785,8 @@ def rule_K4(run: Run, prog: Program) -> int:
         if fn.name != "__apply__" or fn.cls is None or not prog.is_subclass(fn.cls, tensor):
             continue
         n += 1
+        decl = fn
+        fn = prog.body_of(fn)  # the code that runs, when __apply__ only hands its parameters on
         selfn = fn.params()[0].arg
         rets = [r for r in walk_no_nested(fn.node) if isinstance(r, ast.Return) and r.value is not None]
         from geolint.dunder import _single_assign_env
@@ -827,7 +829,7 @@ def rule_K4(run: Run, prog: Program) -> int:
         if not rets:
             verdicts.append((VIOLATION, "no value returned"))
         worst = max(verdicts, key=lambda x: {VIOLATION: 3, UNDECIDED: 2, PROVEN: 1}[x[0]])
-        run.add("E6.K4", fn.short, "result kind", worst[0], "; ".join(m for _, m in verdicts), fn.loc)
+        run.add("E6.K4", decl.short, "result kind", worst[0], "; ".join(m for _, m in verdicts), decl.loc)
     # (b) derived caches
     for k, a in derived_cache_attrs(prog):
         for s in prog.concrete_subclasses(k):
@@ -840,6 +842,8 @@ def rule_K4(run: Run, prog: Program) -> int:
             stale = None
             while cur is not None and cur.qualname not in seen:
                 seen.add(cur.qualname)
+                decl_cur = cur
+                cur = prog.body_of(cur)
                 rn = _returned_names(cur)
                 cps = cur.params()
                 cself = cps[0].arg if cps else "self"
@@ -892,7 +896,7 @@ def rule_K4(run: Run, prog: Program) -> int:
                     if rets_ and all(isinstance(r.value, ast.Call) and _ctor(r.value) for r in rets_):
                         ok = True
                     break
-                cur = prog.lookup_after(s, cur.cls, "__apply__")
+                cur = prog.lookup_after(s, decl_cur.cls, "__apply__")
             memo = (k.qualname, a) in MEMO_ATTRS
             if ok and stale is not None:
                 sf, sst = stale
